@@ -33,7 +33,12 @@ META = {
 }
 
 INF = math.inf
-POOL = [-INF, -2.0, -1.0, -0.5, -0.0, 0.0, 0.5, 1.0, 2.0, INF, 1e300, -1e300, 5e-324, 0.1, 0.30000000000000004, 0.3]
+from fractions import Fraction
+BIG = 2 ** 60
+# objective values need not be floats: Python ints beyond 2**53 and Fractions compare exactly with each other and with
+# floats, so a comparator that converts to float first is visible on them
+POOL = [-INF, -2.0, -1.0, -0.5, -0.0, 0.0, 0.5, 1.0, 2.0, INF, 1e300, -1e300, 5e-324, 0.1, 0.30000000000000004, 0.3,
+        BIG, BIG + 1, -BIG, -(BIG + 1), 2 ** 53 + 1, 3, Fraction(1, 3), Fraction(2 ** 60 + 1, 2 ** 60)]
 CVPOOL = [0.0, 5e-324, 1e-9, 0.5, 1.0, 1.0000000000000002, INF]
 
 
@@ -249,8 +254,8 @@ def run(ctx):
 def replay(ctx, data):
     rp = data.get("replay", {})
     if rp.get("kind") == "pair":
-        a = ([float(x) for x in rp["a"][0]], float(rp["a"][1]))
-        b = ([float(x) for x in rp["b"][0]], float(rp["b"][1]))
+        a = ([plat.parse_num(x) for x in rp["a"][0]], float(rp["a"][1]))
+        b = ([plat.parse_num(x) for x in rp["b"][0]], float(rp["b"][1]))
         if rp.get("note"):
             return run(ctx)   # history-dependent failure: re-run the whole sequence
         r, *_ = impl_compare(rp["con"], rp["dirs"], a, b)
@@ -262,7 +267,7 @@ def replay(ctx, data):
     elif rp.get("kind") == "triple":
         from platypus import ParetoDominance
         p = plat.mk_problem(len(rp["dirs"]), rp["dirs"], nconstrs=rp["con"])
-        x, y, z = [plat.mk_solution(p, [float(v) for v in o], float(c)) for o, c in rp["pts"]]
+        x, y, z = [plat.mk_solution(p, [plat.parse_num(v) for v in o], float(c)) for o, c in rp["pts"]]
         cmp = ParetoDominance()
         if cmp.compare(x, y) == -1 and cmp.compare(y, z) == -1 and cmp.compare(x, z) != -1:
             ctx.violation(data.get("key", "replay"), "replay: transitivity fails", rp)
